@@ -12,6 +12,12 @@ CONSTANTS
   MemSoft = {0, 2}
   CpuAmt = {1, 4}
   MemAmt = {1, 3}
+  MsLim = {0}
+  MsSoft = {0}
+  Ticks = {}
+  ThrInc = 10000
+  MaxClk = 0
+  OldPopOrder = FALSE
   XFlags = {}
   MaxDepth = 2
   MaxFrames = 0
